@@ -80,8 +80,16 @@ func applyPatch(doc document.Document, p patch.Patch) (document.Document, error)
 	return nil, fmt.Errorf("action '%s' is not supported", action)
 }
 
-func applyJSON(doc document.Document, entry interface{}) (document.Document, error) {
+func applyJSON(doc document.Document, entry interface{}) (result document.Document, err error) {
 	logger.Debug("Applying JSON patch", logfields.WithPatch(entry))
+
+	// The JSON patch library panics on some malformed patches (e.g. negative array
+	// indices, 'test' without a value); a failing patch must yield an error instead.
+	defer func() {
+		if r := recover(); r != nil {
+			result, err = nil, fmt.Errorf("failed to apply JSON patch: %v", r)
+		}
+	}()
 
 	bytes, err := json.Marshal(entry)
 	if err != nil {
